@@ -62,6 +62,7 @@ void gen_history(Tape &t, Case &c, int maxlen, bool allow_copy, int solve_weight
       continue;
     }
     if (w == solve_weight) { c.ops.push_back(Op("probe")); continue; }
+    if (g_adaptive_tail && t.chance(1, 10)) { c.ops.push_back(Op("norms").I(t.below(5))); continue; }
     if (w == solve_weight + 1 && gm.m() + gm.n() > 0) {
       std::string cs, rs;
       gen_basis(t, gm, cs, rs);
@@ -366,6 +367,35 @@ void c05_run(const Case &c, Result &r) {
       edited_since_solve = true;
       last_edit = "delslack";
       last_optimal = false;
+      continue;
+    }
+    if (o.k == "norms") {
+      // the basis / row-norm side channel: none of these calls may change what the next solve answers
+      int k = o.i.empty() ? 0 : (int)o.i[0] % 5, n = mpq_QSget_colcount(p), mm = mpq_QSget_rowcount(p), rc = 0;
+      std::string cs((size_t)n + 1, '?'), rs((size_t)mm + 1, '?');
+      QArr norms(mm + 1);
+      switch (k) {
+      case 0:   // get basis + norms, load them straight back
+        rc = mpq_QSget_basis_and_row_norms_array(p, &cs[0], &rs[0], norms.v);
+        if (rc == 0) { rc = mpq_QSload_basis_and_row_norms_array(p, &cs[0], &rs[0], norms.v); r.label(rc ? "norms:load-back-rejected" : "norms:get+load"); if (rc) r.fail("norms:own-basis-and-norms-rejected", "QSload_basis_and_row_norms_array rejects what QSget_basis_and_row_norms_array returned"); }
+        else r.label("norms:get-refused");
+        break;
+      case 1: rc = mpq_QScompute_row_norms(p); r.label(rc ? "norms:compute-refused" : "norms:compute"); break;
+      case 2: rc = mpq_QStest_row_norms(p); r.label("norms:test"); break;
+      case 3: {   // basis object out and in again
+        QSbasis *Bo = mpq_QSget_basis(p);
+        if (Bo) { rc = mpq_QSload_basis(p, Bo); mpq_QSfree_basis(Bo); r.label(rc ? "norms:own-basis-object-rejected" : "norms:basis-object-roundtrip"); if (rc) r.fail("norms:own-basis-object-rejected", "QSload_basis rejects the object QSget_basis returned"); }
+        else r.label("norms:no-basis");
+        break;
+      }
+      default: {  // basis arrays with all-one norms (valid: any positive weights are admissible starting norms)
+        rc = mpq_QSget_basis_array(p, &cs[0], &rs[0]);
+        if (rc == 0) { for (int i = 0; i < mm; i++) norms.set(i, Q(1)); rc = mpq_QSload_basis_and_row_norms_array(p, &cs[0], &rs[0], norms.v); r.label(rc ? "norms:unit-norms-rejected" : "norms:unit-norms-loaded"); }
+        break;
+      }
+      }
+      if (r.verdict != PASS) break;
+      if (k == 0 || k >= 3) last_optimal = false;     // a basis was (re)loaded
       continue;
     }
     if (o.k == "loadbasis") {
